@@ -16,6 +16,9 @@ def plan(tier, seed):
         for top_k in (0, 2):
             jobs.append({"id": f"C10:n={n} top_k={top_k} topp", "module": "vf.decoding", "func": "decoding_job", "params": dict(n=n, top_k=top_k, mode="topp")})
         jobs.append({"id": f"C10:n={n} top_k=0 tanh", "module": "vf.decoding", "func": "decoding_job", "params": dict(n=n, top_k=0, mode="tanh")})
+        # two rows: filters must act row by row (a statistic taken over the whole batch leaks between rows)
+        for top_k, mode in ((2, "plain"), (0, "topp"), (1, "select")):
+            jobs.append({"id": f"C10:n={n} top_k={top_k} {mode} B=2", "module": "vf.decoding", "func": "decoding_job", "params": dict(n=n, top_k=top_k, mode=mode, B=2)})
     if tier == "thorough":
         jobs.append({"id": "C10:n=6 top_k=0 topp", "module": "vf.decoding", "func": "decoding_job", "params": dict(n=6, top_k=0, mode="topp")})
         jobs.append({"id": "C10:n=6 top_k=3 plain", "module": "vf.decoding", "func": "decoding_job", "params": dict(n=6, top_k=3, mode="plain")})
@@ -35,8 +38,8 @@ def plan(tier, seed):
                                 "top_k": rng.choice([0, 1, 2, n]), "tanh_clipping": rng.choice([0.0, 0.0, 10.0]), "shift": 0.0}})
     return {
         "jobs": jobs, "torch_requests": reqs, "level": "model_checking",
-        "bounds": "n actions, B=1; logits, mask, temperature, top_p, tanh clipping symbolic; top_k enumerated 0..n+1",
-        "outside": "float overflow of exp for huge magnitudes (real-arithmetic model); B>1 (row-wise code)",
+        "bounds": "n actions, B<=2 rows; logits, mask, temperature, top_p, tanh clipping symbolic; top_k enumerated 0..n+1",
+        "outside": "float overflow of exp for huge magnitudes (real-arithmetic model); B>2",
     }
 
 
@@ -57,7 +60,7 @@ def validate(reqs, resps):
         lp = dec.process_logits(T.tensor([p["logits"]], dtype=T.float32), T.tensor([p["mask"]], dtype=T.bool_), temperature=p["temperature"],
                                 top_p=p["top_p"], top_k=p["top_k"], tanh_clipping=p["tanh_clipping"])
         mine = [float(x) for x in lp.a[0]]
-        real = [_f(x) for x in rs["logprobs"]]
+        real = [_f(x) for x in rs["logprobs"][0]]
         if any((a == -math.inf) != (b == -math.inf) or (a > -math.inf and abs(a - b) > 1e-4 * (1 + abs(a))) for a, b in zip(mine, real)):
             bad.append(f"process_logits differs on {p}: symtorch {mine} vs torch {real}")
         else:
@@ -70,43 +73,56 @@ def _f(x):
 
 
 def confirm(rp, resp):
-    p = rp["params"]
+    ok, text = confirm_one(rp["params"], resp)
+    if ok:
+        return ok, text
+    for v in resp.get("variants", []):
+        ok, text2 = confirm_one(v["params"], v)
+        if ok:
+            return True, text2 + f" [instance re-scaled for replay: temperature={v['params']['temperature']} top_p={v['params']['top_p']} logits={v['params']['logits']}]"
+    return False, text
+
+
+def confirm_one(p, resp):
     if "error" in resp:
         return True, "real process_logits raised: " + resp["error"]
-    lp, lp0 = [_f(x) for x in resp["logprobs"]], [_f(x) for x in resp["unfiltered"]]
-    n = len(lp)
-    mask = p["mask"]
-    kept = [i for i in range(n) if lp[i] > -math.inf]
-    if any(not mask[i] for i in kept):
-        return True, f"masked action keeps positive probability: logprobs={lp} mask={mask}"
-    if not kept:
-        return True, "no action keeps positive probability"
-    if abs(sum(math.exp(lp[i]) for i in kept) - 1) > 1e-4:
-        return True, f"distribution is not normalised: {lp}"
-    best = max(lp0[i] for i in range(n) if mask[i])
-    if not any(lp0[i] >= best - 1e-7 and i in kept for i in range(n)):
-        return True, f"the most likely feasible action was filtered out: unfiltered={lp0} filtered={lp}"
-    if p["top_k"] > 0:
-        k = min(p["top_k"], n)
-        for i in kept:
-            if sum(1 for j in range(n) if mask[j] and lp0[j] > lp0[i] + 1e-6) >= k:
-                return True, f"top-k={k} keeps an action with >= k strictly better feasible actions: unfiltered={lp0} filtered={lp}"
-    if 0 < p["top_p"] < 1:
-        mass = sum(math.exp(lp0[i]) for i in kept)
-        if mass < p["top_p"] - 1e-4:
-            return True, f"top-p={p['top_p']} keeps only mass {mass:.5f}: unfiltered={lp0} filtered={lp}"
-    if "shifted" in resp:
-        ls = [_f(x) for x in resp["shifted"]]
-        if any((a > -math.inf) != (b > -math.inf) or (a > -math.inf and abs(a - b) > 1e-4 * (1 + abs(a))) for a, b in zip(lp, ls)):
-            return True, f"adding {p['shift']} to all logits changes the distribution: {lp} vs {ls}"
+    masks = p["mask"] if isinstance(p["mask"][0], list) else [p["mask"]]
     if "greedy_assert" in resp:
         return True, "greedy selected an infeasible action: " + resp["greedy_assert"]
-    if "greedy" in resp and (not mask[resp["greedy"]] or lp[resp["greedy"]] < max(lp) - 1e-6):
-        return True, f"greedy returned {resp['greedy']} which is not a feasible maximiser of {lp}"
     if "sampling_error" in resp:
         return True, "sampling failed: " + resp["sampling_error"]
-    if any((not mask[s]) or lp[s] == -math.inf for s in resp.get("samples", [])):
-        return True, f"sampling returned an action of zero probability: {resp['samples']} for {lp}"
+    for b, mask in enumerate(masks):
+        lp, lp0 = [_f(x) for x in resp["logprobs"][b]], [_f(x) for x in resp["unfiltered"][b]]
+        n = len(lp)
+        kept = [i for i in range(n) if lp[i] > -math.inf]
+        if any(not mask[i] for i in kept):
+            return True, f"row {b}: masked action keeps positive probability: logprobs={lp} mask={mask}"
+        if not kept:
+            return True, f"row {b}: no action keeps positive probability"
+        if abs(sum(math.exp(lp[i]) for i in kept) - 1) > 1e-4:
+            return True, f"row {b}: distribution is not normalised: {lp}"
+        best = max(lp0[i] for i in range(n) if mask[i])
+        if not any(lp0[i] >= best - 1e-7 and i in kept for i in range(n)):
+            return True, f"row {b}: the most likely feasible action was filtered out: unfiltered={lp0} filtered={lp}"
+        if p["top_k"] > 0:
+            k = min(p["top_k"], n)
+            for i in kept:
+                if sum(1 for j in range(n) if mask[j] and lp0[j] > lp0[i] + 1e-6) >= k:
+                    return True, f"row {b}: top-k={k} keeps an action with >= k strictly better feasible actions: unfiltered={lp0} filtered={lp}"
+        if 0 < p["top_p"] < 1:
+            mass = sum(math.exp(lp0[i]) for i in kept)
+            if mass < p["top_p"] - 1e-4:
+                return True, f"row {b}: top-p={p['top_p']} keeps only mass {mass:.5f}: unfiltered={lp0} filtered={lp}"
+        if "shifted" in resp:
+            ls = [_f(x) for x in resp["shifted"][b]]
+            if any((a > -math.inf) != (c > -math.inf) or (a > -math.inf and abs(a - c) > 1e-4 * (1 + abs(a))) for a, c in zip(lp, ls)):
+                return True, f"row {b}: adding {p['shift']} to all logits changes the distribution: {lp} vs {ls}"
+        if "greedy" in resp:
+            g = resp["greedy"][b]
+            if not mask[g] or lp[g] < max(lp) - 1e-6:
+                return True, f"row {b}: greedy returned {g} which is not a feasible maximiser of {lp}"
+        if resp.get("samples") and any((not mask[s_]) or lp[s_] == -math.inf for s_ in resp["samples"][b]):
+            return True, f"row {b}: sampling returned an action of zero probability: {resp['samples'][b]} for {lp}"
     return False, "all decoding properties hold numerically on the real outputs"
 
 
